@@ -1,4 +1,5 @@
 import DendroModel.Model.C04
+import DendroModel.Model.C04State
 open DendroModel DendroModel.C04
 
 def parseRooted (s : String) : Option (Option Bool) :=
@@ -26,6 +27,29 @@ def handle (ws : List String) : String :=
         s!"{fp} {fn} {optRat (wrf m1 m2)} {optRat (euclidSq m1 m2)} | " ++ " ".intercalate ((missing s1 s2).map toString)
       | _ => "bad-op"
     | _, _, _ => "bad-op"
+  -- sdist <updated 0|1> <ns1> <ns2> <rooting1> <rooting2> <enc1 0|1> <enc2 0|1> <cur1> <cur2> [<tree1 as last encoded>] [<tree2 as last encoded>]
+  --   ->  refused | fp fn | missing     (the unweighted functions on two tree OBJECTS with stored encodings)
+  | "sdist" :: upd :: ns1 :: ns2 :: r1 :: r2 :: h1 :: h2 :: rest =>
+    let flag (s : String) : Option Bool := if s == "1" then some true else if s == "0" then some false else none
+    match flag upd, ns1.toNat?, ns2.toNat?, parseRooted r1, parseRooted r2, flag h1, flag h2, parseTree rest with
+    | some upd, some ns1, some ns2, some r1, some r2, some h1, some h2, some (c1, rest1) =>
+      match parseTree rest1 with
+      | some (c2, rest2) =>
+        let old (h : Bool) (r : Option Bool) (ws : List String) : Option (Option (List Int) × List String) :=
+          if h then (parseTree ws).map (fun p => (some ((edgeRecs r p.1).map (·.split)), p.2)) else some (none, ws)
+        match old h1 r1 rest2 with
+        | some (e1, rest3) =>
+          match old h2 r2 rest3 with
+          | some (e2, []) =>
+            let a : TreeObj := ⟨ns1, r1, c1, e1⟩
+            let b : TreeObj := ⟨ns2, r2, c2, e2⟩
+            match (fpfnCall upd a b).1, (missingCall upd a b).1 with
+            | some (fp, fn), some ms => s!"{fp} {fn} | " ++ " ".intercalate (ms.map toString)
+            | _, _ => "refused"
+          | _ => "bad-op"
+        | none => "bad-op"
+      | none => "bad-op"
+    | _, _, _, _, _, _, _, _ => "bad-op"
   | _ => "bad-op"
 
 def main : IO Unit := do driverLoop (← IO.getStdin) handle
